@@ -3,7 +3,7 @@
 import json, os
 ROOT = os.path.dirname(os.path.dirname(os.path.abspath(__file__)))
 
-HOOK_COMMITS = ["6174218"]
+HOOK_COMMITS = ["6174218", "9355482"]
 
 CHECKS = {
  # id: (technique, level text, level note, design ref)
@@ -61,6 +61,12 @@ CHECKS.update({
  "C11": ("oracle computed from the multiset of argument values; exhaustive ordered tuples (all permutations) over a small pool + random lists (proptest)",
          "Exploration: every ordered argument tuple of length <=4 (thorough <=5) over an 9-11 value pool for every aggregate and evaluator - which includes every permutation of every multiset - random lists up to length 8 with varied argument spellings, failing arguments at every position, empty lists.",
          "Argument values are scaled integers (k/1024, k/10^4) so that every partial sum is exact and the expected mean is a single correctly rounded division; NaN/inf arguments are outside the claim.", "4/C11"),
+})
+
+CHECKS.update({
+ "C15": ("differential testing between evaluators on one rendered text, restriction decided by reference / eval_f64 subexpression values; random trees (proptest) + exhaustive real grid for complex",
+         "Exploration: (i) i64-vs-number and (ii) f64-vs-number on random trees of the shared grammars, (iii) complex-vs-f64 on an exhaustive grid of every shared function/operator x in-domain real points, (iv) decimal-vs-f64 on random well-conditioned positive trees with a propagated error bound.",
+         "Cases that leave the stated restriction are skipped and counted; the restriction for (ii) is decided on eval_f64's own subexpression values.", "4/C15"),
 })
 
 NOT_YET = {
